@@ -3,6 +3,15 @@ Driver of word `ib` (bus-level importer model: nodes, senders, receivers, signal
 units, value tables; stream impbus).
 
   ib import <dfile-json>   → ok <bus>  |  err <cause>
+  ib export <mbus-json>    → ok <dfile-json>          (canonical text, see `showFile`)
+  ib rt <mbus-json>        → ok <bus>  |  err <cause>  (importBus (exportBus b), rendered like `ib import`)
+
+  mbus  = {"desc":text,"nodes":[{"n":name,"id":N,"d":text}…],
+           "types":[{"k":"flag"|"integer"|"decimal"|"custom","z":size,"sg":0|1,"mn":q,"mx":q,"sc":q,"of":q}…],
+           "units":[symbol…],"enums":[{"n":name,"min":N,"v":[[id,name]…]}…],
+           "msgs":[{"id":N,"n":name,"z":bytes,"tx":node,"rx":[node…],"d":text,
+                    "sigs":[{"n":name,"s":start,"d":text,"t":typeIdx,"u":unitIdx|-1} | {"n":name,"s":start,"d":text,"e":enumIdx}…]}…]}
+           (the indexes are the object identities: two signals with one index share the object)
 
 JSON (no blank anywhere: the driver splits a line at blanks; a blank inside a string travels as
  the JSON escape of U+0020):
@@ -25,10 +34,13 @@ Rendering (the same text is produced by harness/s_impbus.go from the real object
 import Lean.Data.Json
 import Acme.Driver.Util
 import Acme.Core.ImportBus
+import Acme.Core.ExportBus
+import Acme.Spec.ExportBus
 
 namespace Acme.Driver.ImportBusD
 open Lean (Json)
 open Acme.ImportBus
+open Acme.ExportBus (exportBus)
 
 abbrev D := Except String
 
@@ -188,9 +200,95 @@ def handleImport (payload : String) : String :=
     | .ok b => "ok " ++ showBus b
     | .error e => "err " ++ showErr e
 
+/-! ## the bus as input -/
+
+def fInt (j : Json) (k : String) : D Int := do (← fld j k).getInt?
+
+def kindOfStr : String → D Acme.Arith.Kind
+  | "flag" => pure .flag | "integer" => pure .integer | "decimal" => pure .decimal | "custom" => pure .custom
+  | _ => throw "kind"
+
+def mNode (j : Json) : D INode := do
+  pure { name := ← fStr j "n", id := ← fNat j "id", desc := ← fStrD j "d" }
+
+def mType (j : Json) : D SigType := do
+  pure { kind := ← kindOfStr (← fStr j "k"), size := ← fNat j "z", signed := ← fFlag j "sg",
+         min := ← fRat j "mn", max := ← fRat j "mx", scale := ← fRat j "sc", offset := ← fRat j "of" }
+
+def mEnum (j : Json) : D IEnum := do
+  pure { name := ← fStr j "n", values := ← fList dVal j "v", minSize := ← fNat j "min", refs := 0 }
+
+def mSignal (j : Json) : D ISignal := do
+  let kind ← match j.getObjVal? "e" with
+    | .ok v => do pure (IKind.enum (← v.getNat?))
+    | .error _ => do
+      let u ← fInt j "u"
+      pure (IKind.standard (← fNat j "t") (if u < 0 then none else some u.toNat))
+  pure { name := ← fStr j "n", start := ← fNat j "s", desc := ← fStrD j "d", kind := kind }
+
+def mMessage (j : Json) : D IMessage := do
+  pure { id := ← fNat j "id", name := ← fStr j "n", size := ← fNat j "z", sender := ← fStr j "tx",
+         receivers := ← fList (·.getStr?) j "rx", desc := ← fStrD j "d", sigs := ← fList mSignal j "sigs" }
+
+def mBus (j : Json) : D IBus := do
+  pure { desc := ← fStrD j "desc", nodes := ← fList mNode j "nodes", msgs := ← fList mMessage j "msgs",
+         types := ← fList mType j "types", units := ← fList (·.getStr?) j "units", enums := ← fList mEnum j "enums" }
+
+/-! ## the document as canonical JSON text (read back by `dFile` and by harness/s_impbus.go) -/
+
+def jEsc (s : String) : String :=
+  String.join (s.toList.map (fun c =>
+    if c = ' ' then "\\u0020" else if c = '"' then "\\\"" else if c = '\\' then "\\\\" else c.toString))
+
+def jStr (s : String) : String := "\"" ++ jEsc s ++ "\""
+
+def jVals (vs : List DVal) : String := showList (vs.map (fun v => s!"[{v.1},{jStr v.2}]"))
+
+def jTable (t : DTable) : String := "{" ++ s!"\"n\":{jStr t.name},\"v\":{jVals t.values}" ++ "}"
+
+def jEnc (c : DEnc) : String := "{" ++ s!"\"m\":{c.msgId},\"s\":{jStr c.sigName},\"v\":{jVals c.values}" ++ "}"
+
+def jComment : DComment → String
+  | .general t => "{" ++ s!"\"k\":\"g\",\"t\":{jStr t}" ++ "}"
+  | .node n t => "{" ++ s!"\"k\":\"n\",\"n\":{jStr n},\"t\":{jStr t}" ++ "}"
+  | .msg i t => "{" ++ s!"\"k\":\"m\",\"m\":{i},\"t\":{jStr t}" ++ "}"
+  | .sig i n t => "{" ++ s!"\"k\":\"s\",\"m\":{i},\"s\":{jStr n},\"t\":{jStr t}" ++ "}"
+
+def jSignal (d : DSignal) : String :=
+  "{" ++ s!"\"n\":{jStr d.name},\"s\":{d.start},\"z\":{d.size},\"sg\":{if d.signed then 1 else 0},\"f\":{jStr (showRat d.factor)},\"o\":{jStr (showRat d.offset)},\"mn\":{jStr (showRat d.min)},\"mx\":{jStr (showRat d.max)},\"u\":{jStr d.unit},\"r\":{showList (d.receivers.map jStr)}" ++ "}"
+
+def jMessage (m : DMessage) : String :=
+  "{" ++ s!"\"id\":{m.id},\"n\":{jStr m.name},\"z\":{m.size},\"tx\":{jStr m.transmitter},\"sigs\":{showList (m.sigs.map jSignal)}" ++ "}"
+
+/-- tables of one name are a set for the comparison: ordered by the text of their values -/
+def tableLe (a c : DTable) : Bool :=
+  a.name < c.name || (a.name == c.name && decide (jVals a.values ≤ jVals c.values))
+
+def showFile (f : DFile) : String :=
+  "{" ++ s!"\"nodes\":{showList (f.nodes.map jStr)},\"vt\":{showList ((f.tables.mergeSort tableLe).map jTable)},\"ve\":{showList (f.encs.map jEnc)},\"cm\":{showList (f.comments.map jComment)},\"msgs\":{showList (f.msgs.map jMessage)}" ++ "}"
+
+def handleExport (payload : String) : String :=
+  match Json.parse payload >>= mBus with
+  | .error e => "bad-op " ++ e
+  | .ok b => "ok " ++ showFile (exportBus b)
+
+def handleRt (payload : String) : String :=
+  match Json.parse payload >>= mBus with
+  | .error e => "bad-op " ++ e
+  | .ok b =>
+    -- on the class of Acme.Props.C11Bus.bus_roundtrip the answer is checked against `normB`
+    let wf := decide (Acme.ExportBus.BusWF b)
+    match importBus (exportBus b) with
+    | .ok b' =>
+      if wf && !(decide (Acme.ExportBus.view b' = Acme.ExportBus.normB b)) then "THEOREM-VIOLATION view"
+      else "ok " ++ showBus b' ++ (if wf then " ##wf" else " ##outside")
+    | .error e => if wf then "THEOREM-VIOLATION refused" else "err " ++ showErr e
+
 def handle (args : List String) : String :=
   match args with
   | "import" :: payload :: _ => handleImport payload
+  | "export" :: payload :: _ => handleExport payload
+  | "rt" :: payload :: _ => handleRt payload
   | _ => "bad-op"
 
 end Acme.Driver.ImportBusD
